@@ -3,7 +3,6 @@ package pc
 import (
 	"fmt"
 	"go/ast"
-	"go/constant"
 	"go/token"
 	"go/types"
 	"sort"
@@ -379,47 +378,32 @@ func ruleC07Shapes(p *Program, r *Run) {
 		"take": "TakeOperator", "limit": "TakeOperator", "top": "TopOperator", "project": "ProjectOperator", "extend": "ExtendOperator",
 		"summarize": "SummarizeOperator", "join": "JoinOperator", "as": "AsOperator", "render": "RenderOperator",
 	}
+	// Decided on path facts, whatever the dispatch looks like (a switch in place, a dispatcher function, helpers):
+	// the result of an operator production is tagged with the production's name; where a value is appended to the
+	// pipeline, its tag says which production built it and the fact on the keyword token says for which keyword.
+	syn := &synClient{p: p, got: map[string]map[string]bool{}}
+	se2 := NewEngine(p, pkg, te, syn)
+	se2.Run(nil)
+	for _, m := range se2.Errs {
+		r.Fail("C07/synonyms", "parser.(*parser).tabularExpr engine", "-", m)
+	}
 	got := map[string]string{}
-	clauseOf := map[string]*ast.CaseClause{}
-	appended := map[*ast.CaseClause]bool{}
-	ast.Inspect(te.Body, func(n ast.Node) bool {
-		cc, ok := n.(*ast.CaseClause)
-		if !ok || cc.List == nil {
-			return true
+	prodOf := map[string]string{}
+	for k, ps := range syn.got {
+		var names []string
+		for n := range ps {
+			names = append(names, n)
 		}
-		var keys []string
-		for _, e := range cc.List {
-			if s, ok := constString(info, e); ok {
-				keys = append(keys, s)
+		sort.Strings(names)
+		prodOf[k] = strings.Join(names, ",")
+		if len(names) == 1 {
+			if fd := p.FuncDecl(pkg, "parser."+names[0]); fd != nil {
+				got[k] = strings.TrimPrefix(TypeStr(FuncObj(pkg, fd).Type().(*types.Signature).Results().At(0).Type()), "*parser.")
 			}
+		} else {
+			got[k] = "one of " + prodOf[k]
 		}
-		if len(keys) == 0 {
-			return true
-		}
-		resT := ""
-		var resObj types.Object
-		ast.Inspect(cc, func(m ast.Node) bool {
-			if as, ok := m.(*ast.AssignStmt); ok && len(as.Rhs) == 1 {
-				if call, ok := as.Rhs[0].(*ast.CallExpr); ok {
-					if f := Callee(info, call); f != nil && f.Type().(*types.Signature).Results().Len() == 2 {
-						resT = strings.TrimPrefix(TypeStr(f.Type().(*types.Signature).Results().At(0).Type()), "*parser.")
-						resObj = objOf(info, as.Lhs[0])
-					}
-				}
-			}
-			if call, ok := m.(*ast.CallExpr); ok && IsBuiltinCall(info, call, "append") && len(call.Args) == 2 && resObj != nil && objOf(info, call.Args[1]) == resObj {
-				if f := selField(info, call.Args[0]); f != nil && f.Name() == "Operators" {
-					appended[cc] = true
-				}
-			}
-			return true
-		})
-		for _, k := range keys {
-			got[k] = resT
-			clauseOf[k] = cc
-		}
-		return true
-	})
+	}
 	var kws []string
 	for k := range wantOp {
 		kws = append(kws, k)
@@ -427,13 +411,23 @@ func ruleC07Shapes(p *Program, r *Run) {
 	sort.Strings(kws)
 	for _, k := range kws {
 		key := fmt.Sprintf("parser.(*parser).tabularExpr keyword %q", k)
-		ok := got[k] == wantOp[k] && appended[clauseOf[k]]
-		msg := fmt.Sprintf("keyword %q builds %q (documented %s) and appends it to the pipeline=%v", k, got[k], wantOp[k], appended[clauseOf[k]])
+		ok := got[k] == wantOp[k]
+		msg := fmt.Sprintf("for keyword %q the pipeline is extended with %q (documented %s)", k, got[k], wantOp[k])
 		r.Check(ok, "C07/synonyms", key, p.Pos(te.Pos()), "keyword builds "+wantOp[k]+" and appends it", msg)
 	}
+	var extra []string
+	for k := range syn.got {
+		if _, doc := wantOp[k]; !doc {
+			extra = append(extra, k)
+		}
+	}
+	sort.Strings(extra)
+	for _, k := range extra {
+		r.Fail("C07/synonyms", fmt.Sprintf("parser.(*parser).tabularExpr keyword %q", k), p.Pos(te.Pos()), fmt.Sprintf("the pipeline is extended (with %s) for a keyword that is not a documented operator name (\"?\" = on a path where the keyword is not determined)", prodOf[k]))
+	}
 	for _, pair := range [][2]string{{"where", "filter"}, {"sort", "order"}, {"take", "limit"}} {
-		same := clauseOf[pair[0]] != nil && clauseOf[pair[0]] == clauseOf[pair[1]]
-		r.Check(same, "C07/synonyms", fmt.Sprintf("parser.(*parser).tabularExpr %s/%s share one production", pair[0], pair[1]), p.Pos(te.Pos()), "synonyms are handled by the same case clause", fmt.Sprintf("%q and %q are not handled by the same case clause: the synonyms may diverge", pair[0], pair[1]))
+		same := prodOf[pair[0]] != "" && prodOf[pair[0]] == prodOf[pair[1]]
+		r.Check(same, "C07/synonyms", fmt.Sprintf("parser.(*parser).tabularExpr %s/%s share one production", pair[0], pair[1]), p.Pos(te.Pos()), "synonyms are parsed by the same production", fmt.Sprintf("%q is parsed by %s and %q by %s: the synonyms may diverge", pair[0], prodOf[pair[0]], pair[1], prodOf[pair[1]]))
 	}
 	r.Floor("C07/synonyms", 17)
 
@@ -446,65 +440,29 @@ func ruleSortDefaults(p *Program, r *Run, rule string) {
 	info := pkg.TypesInfo
 	st := p.MustFunc(pkg, "parser.sortTerm")
 	r.Saw(FuncName(pkg, st))
-	type setting struct{ field, val string }
-	got := map[string][]setting{}
-	ast.Inspect(st.Body, func(n ast.Node) bool {
-		as, ok := n.(*ast.AssignStmt)
-		if !ok || len(as.Lhs) != 1 || len(as.Rhs) != 1 {
-			return true
-		}
-		f := selField(info, as.Lhs[0])
-		if f == nil || (f.Name() != "Asc" && f.Name() != "NullsFirst") {
-			return true
-		}
-		v := constOf(info, as.Rhs[0])
-		if v == nil || v.Kind() != constant.Bool {
-			got["?"] = append(got["?"], setting{f.Name(), "non-constant"})
-			return true
-		}
-		// innermost case clause with a string constant
-		word := "?"
-		p.ancestors(as, st, func(anc, _ ast.Node) bool {
-			cc, ok := anc.(*ast.CaseClause)
-			if !ok {
-				return true
-			}
-			for _, e := range cc.List {
-				ast.Inspect(e, func(m ast.Node) bool {
-					if ex, ok := m.(ast.Expr); ok {
-						if s, ok := constString(info, ex); ok && word == "?" {
-							word = s
-						}
-					}
-					return true
-				})
-			}
-			return word == "?"
-		})
-		got[word] = append(got[word], setting{f.Name(), v.String()})
-		return true
-	})
-	want := map[string][]setting{
-		"asc":   {{"Asc", "true"}, {"NullsFirst", "true"}},
-		"desc":  {{"Asc", "false"}, {"NullsFirst", "false"}},
-		"first": {{"NullsFirst", "true"}},
-		"last":  {{"NullsFirst", "false"}},
+	// Decided on the path facts at every successful return of sortTerm: the keywords read on the path (facts on the
+	// tokens' text, remembered while they hold) determine what the two flags must be.
+	tc := &sortTermClient{p: p, seen: map[string]int{}, bad: map[string]string{}}
+	te2 := NewEngine(p, pkg, st, tc)
+	te2.Run(nil)
+	for _, m := range te2.Errs {
+		r.Fail(rule, "parser.(*parser).sortTerm engine", "-", m)
 	}
-	norm := func(l []setting) string {
-		var ss []string
-		for _, s := range l {
-			ss = append(ss, s.field+"="+s.val)
-		}
-		sort.Strings(ss)
-		return strings.Join(ss, ",")
+	doc := map[string]string{
+		"asc":   "Asc=true, NullsFirst=true unless `nulls last`",
+		"desc":  "Asc=false, NullsFirst=false unless `nulls first`",
+		"first": "NullsFirst=true",
+		"last":  "NullsFirst=false",
 	}
 	for _, w := range []string{"asc", "desc", "first", "last"} {
-		r.Check(norm(got[w]) == norm(want[w]), rule, fmt.Sprintf("parser.(*parser).sortTerm keyword %q", w), p.Pos(st.Pos()), "sets "+norm(want[w]), fmt.Sprintf("keyword %q sets {%s}, documented {%s}", w, norm(got[w]), norm(want[w])))
-	}
-	for w := range got {
-		if _, ok := want[w]; !ok {
-			r.Fail(rule, fmt.Sprintf("parser.(*parser).sortTerm setting under %q", w), p.Pos(st.Pos()), fmt.Sprintf("sort flags are set under an undocumented keyword/condition %q: {%s}", w, norm(got[w])))
+		why := tc.bad[w]
+		if tc.seen[w] == 0 && why == "" {
+			why = "no successful return of sortTerm is reached with the keyword read"
 		}
+		r.Check(why == "", rule, fmt.Sprintf("parser.(*parser).sortTerm keyword %q", w), p.Pos(st.Pos()), "sets "+doc[w]+fmt.Sprintf(" (all %d returning path states with the keyword)", tc.seen[w]), fmt.Sprintf("keyword %q: %s; documented: %s", w, why, doc[w]))
+	}
+	if why := tc.bad[""]; why != "" {
+		r.Fail(rule, "parser.(*parser).sortTerm without keywords", p.Pos(st.Pos()), why)
 	}
 	// default: the SortTerm literal leaves both flags false
 	okDef := true
@@ -594,57 +552,29 @@ func ruleC07Statements(p *Program, r *Run) {
 		r.Fail("C07/statements", fn+" statement loop", p.Pos(fd.Pos()), "no statement loop found in Parse")
 		return
 	}
-	var bad []string
-	exits := 0
-	var walk func(n ast.Node, depth int)
-	walk = func(n ast.Node, depth int) {
-		ast.Inspect(n, func(x ast.Node) bool {
-			switch v := x.(type) {
-			case *ast.FuncLit:
-				return false
-			case *ast.ForStmt, *ast.RangeStmt, *ast.SwitchStmt, *ast.TypeSwitchStmt:
-				if x != ast.Node(loop.Body) {
-					// breaks inside nested breakable statements do not leave the statement loop unless labelled
-					ast.Inspect(x, func(y ast.Node) bool {
-						if b, ok := y.(*ast.BranchStmt); ok && b.Tok == token.BREAK && b.Label != nil {
-							bad = append(bad, "labelled break at "+p.Pos(b.Pos()))
-						}
-						if _, ok := y.(*ast.ReturnStmt); ok {
-							bad = append(bad, "return inside the loop at "+p.Pos(y.Pos()))
-						}
-						return true
-					})
-					return false
-				}
-			case *ast.ReturnStmt:
-				bad = append(bad, "return inside the loop at "+p.Pos(v.Pos()))
-			case *ast.BranchStmt:
-				if v.Tok != token.BREAK {
-					return true
-				}
-				exits++
-				// must be the body of `if _, ok := p.next(); !ok { break }`
-				okExit := false
-				if blk, ok := p.Parent(v).(*ast.BlockStmt); ok && len(blk.List) == 1 {
-					if ifs, ok := p.Parent(blk).(*ast.IfStmt); ok && ifs.Body == blk {
-						if as, ok := ifs.Init.(*ast.AssignStmt); ok && len(as.Lhs) == 2 && len(as.Rhs) == 1 {
-							if call, ok := as.Rhs[0].(*ast.CallExpr); ok && Callee(info, call) == next {
-								if un, ok := ast.Unparen(ifs.Cond).(*ast.UnaryExpr); ok && un.Op == token.NOT && objOf(info, un.X) == objOf(info, as.Lhs[1]) {
-									okExit = true
-								}
-							}
-						}
+	// Decided on the path facts of every state that leaves the loop: the most recent next() of Parse's own parser
+	// reported the end of the tokens (whatever form the loop takes: break under !ok, a loop condition, ...).
+	sc2 := &stmtLoopClient{p: p, loop: loop, next: next}
+	if len(fd.Body.List) > 0 {
+		// Parse's own parser: the variable next() is called on inside the loop but outside sub-parsers
+		ast.Inspect(loop, func(n ast.Node) bool {
+			if call, ok := n.(*ast.CallExpr); ok && Callee(info, call) == next {
+				if sel, ok := ast.Unparen(call.Fun).(*ast.SelectorExpr); ok {
+					if o := objOf(info, sel.X); o != nil && (o.Pos() < loop.Pos() || o.Pos() >= loop.End()) {
+						sc2.parser = o
 					}
-				}
-				if !okExit {
-					bad = append(bad, "break at "+p.Pos(v.Pos())+" that is not `if _, ok := p.next(); !ok`")
 				}
 			}
 			return true
 		})
 	}
-	walk(loop.Body, 0)
-	r.Check(len(bad) == 0 && exits >= 1 && loop.Cond == nil, "C07/statements", fn+" statement loop ends only at the end of the tokens", p.Pos(loop.Pos()), "the only exit is `next()` reporting the end of the token stream: empty statements are skipped, every other one is parsed", "Parse's statement loop can end before the token stream is exhausted ("+strings.Join(bad, "; ")+"): statements after that point are dropped without an error")
+	se3 := NewEngine(p, pkg, fd, sc2)
+	se3.Run(nil)
+	bad := sc2.bad
+	for _, m := range se3.Errs {
+		bad = append(bad, m)
+	}
+	r.Check(len(bad) == 0 && sc2.exits >= 1 && sc2.parser != nil, "C07/statements", fn+" statement loop ends only at the end of the tokens", p.Pos(loop.Pos()), "every state leaving the loop knows that next() just reported the end of the token stream: empty statements are skipped, every other one is parsed", "Parse's statement loop can end before the token stream is exhausted ("+strings.Join(bad, "; ")+"): statements after that point are dropped without an error")
 	r.Floor("C07/statements", 1)
 }
 
@@ -845,4 +775,250 @@ func (c *signClient) Visit(e *Engine, st *State, n ast.Node) *State {
 		c.operand = callee
 	}
 	return nil
+}
+
+// synClient: which production's result is appended to the pipeline under which operator keyword.
+type synClient struct {
+	BaseClient
+	p   *Program
+	got map[string]map[string]bool // keyword -> productions whose result is appended while the keyword is that
+}
+
+// productions: parser methods returning (a pointer to) a tabular operator and an error.
+func (c *synClient) production(fn *types.Func) bool {
+	if fn == nil || fn.Pkg() == nil || fn.Pkg().Path() != PathParser {
+		return false
+	}
+	sig := fn.Type().(*types.Signature)
+	if sig.Recv() == nil || sig.Results().Len() != 2 {
+		return false
+	}
+	t := sig.Results().At(0).Type()
+	if _, isPtr := t.(*types.Pointer); !isPtr {
+		return false
+	}
+	return types.Implements(t, c.p.Iface(c.p.Parser, "TabularOperator"))
+}
+
+// Inline: everything small on the way from the keyword to the append, except the productions themselves.
+func (c *synClient) Inline(e *Engine, call *ast.CallExpr, callee *types.Func, decl *ast.FuncDecl) bool {
+	return !c.production(callee) && smallBody(decl) && callee.Pkg() != nil && callee.Pkg().Path() == PathParser &&
+		callee.Name() != "joinErrors" && callee.Name() != "next" && callee.Name() != "prev" && callee.Name() != "split" && callee.Name() != "endSplit"
+}
+
+func (c *synClient) PostCall(e *Engine, st *State, call *ast.CallExpr, callee *types.Func) *State {
+	if !c.production(callee) {
+		return nil
+	}
+	ids := e.CallResults(call)
+	if len(ids) != 2 {
+		return nil
+	}
+	// the first result: unknown value, tagged with where it came from
+	k := e.CanonSt(st, ids[0])
+	if !k.OK {
+		return nil
+	}
+	if n := e.update(st.killObj(e.Info.Defs[ids[0]]), k, func(f *Fact) { f.Tags = []string{"prod:" + callee.Name()} }); n != nil {
+		return n
+	}
+	return nil
+}
+
+func (c *synClient) PreAssign(e *Engine, st *State, lhs, rhs []ast.Expr, _ ast.Stmt) *State {
+	if len(lhs) != 1 || len(rhs) != 1 || !e.Reporting() {
+		return nil
+	}
+	if f := selField(e.Info, lhs[0]); f == nil || f.Name() != "Operators" {
+		return nil
+	}
+	call, ok := ast.Unparen(rhs[0]).(*ast.CallExpr)
+	if !ok || !IsBuiltinCall(e.Info, call, "append") || len(call.Args) != 2 {
+		return nil
+	}
+	prod := "?" + exprStr(call.Args[1])
+	if f := e.FactOf(st, call.Args[1]); f != nil {
+		for _, t := range f.Tags {
+			if strings.HasPrefix(t, "prod:") {
+				prod = strings.TrimPrefix(t, "prod:")
+			}
+		}
+	}
+	// the operator keyword on this path: the value of a token whose text is known
+	kw := ""
+	for _, k := range st.Keys() {
+		if strings.HasSuffix(k, ".Value") && !strings.HasPrefix(k, "val:") {
+			if f := st.Get(k); f != nil && f.HasEq && strings.HasPrefix(f.Eq, `"`) {
+				kw = strings.Trim(f.Eq, `"`)
+			}
+		}
+	}
+	if kw == "" {
+		kw = "?"
+	}
+	if c.got[kw] == nil {
+		c.got[kw] = map[string]bool{}
+	}
+	c.got[kw][prod] = true
+	return nil
+}
+
+// stmtLoopClient: the statement loop of Parse is only left when next() reported the end of the tokens.
+type stmtLoopClient struct {
+	BaseClient
+	p      *Program
+	loop   *ast.ForStmt
+	next   *types.Func
+	parser types.Object
+	exits  int
+	bad    []string
+}
+
+func (c *stmtLoopClient) PostAssign(e *Engine, st *State, lhs, rhs []ast.Expr, _ ast.Stmt) *State {
+	if len(rhs) != 1 || len(lhs) != 2 {
+		return nil
+	}
+	call, ok := ast.Unparen(rhs[0]).(*ast.CallExpr)
+	if !ok || Callee(e.Info, call) != c.next {
+		return nil
+	}
+	sel, ok := ast.Unparen(call.Fun).(*ast.SelectorExpr)
+	if !ok || objOf(e.Info, sel.X) != c.parser {
+		return nil
+	}
+	if o := objOf(e.Info, lhs[1]); o != nil {
+		return st.WithExt("stok", e.objKey(o))
+	}
+	return st.WithExt("stok", "ignored")
+}
+
+func (c *stmtLoopClient) note(s string) {
+	for _, b := range c.bad {
+		if b == s {
+			return
+		}
+	}
+	c.bad = append(c.bad, s)
+}
+
+func (c *stmtLoopClient) ScopeEnd(e *Engine, st *State, n ast.Node) *State {
+	if n != ast.Node(c.loop) || !e.Reporting() {
+		return nil
+	}
+	c.exits++
+	k := st.Ext("stok")
+	switch k {
+	case "":
+		c.note("the loop is left on a path without any next() on Parse's own parser")
+	case "ignored":
+		c.note("the loop is left after a next() whose ok result was discarded")
+	default:
+		if f := st.GetVar(k); f == nil || !f.HasEq || f.Eq != "false" {
+			c.note("the loop is left on a path where the most recent next() is not known to have reported the end of the tokens")
+		}
+	}
+	return nil
+}
+
+func (c *stmtLoopClient) Return(e *Engine, st *State, ret *ast.ReturnStmt) {
+	if ret != nil && e.Lit == nil && ret.Pos() >= c.loop.Pos() && ret.End() <= c.loop.End() {
+		c.note("return inside the loop at " + e.P.Pos(ret.Pos()))
+	}
+}
+
+// sortTermClient: flags of the SortTerm at the successful returns of sortTerm, against the keywords read.
+type sortTermClient struct {
+	BaseClient
+	p    *Program
+	seen map[string]int
+	bad  map[string]string
+}
+
+var sortKeywords = []string{"asc", "desc", "nulls", "first", "last"}
+
+// Stmt: remember which keywords the tokens read so far are known to be.
+func (c *sortTermClient) Stmt(e *Engine, st *State, _ ast.Stmt) *State {
+	var out *State
+	for _, k := range st.Keys() {
+		if !strings.HasSuffix(k, ".Value") || strings.HasPrefix(k, "val:") {
+			continue
+		}
+		f := st.Get(k)
+		if f == nil || !f.HasEq {
+			continue
+		}
+		w := strings.Trim(f.Eq, `"`)
+		for _, kw := range sortKeywords {
+			if w == kw && st.Ext("kw:"+kw) != "1" {
+				if out == nil {
+					out = st
+				}
+				out = out.WithExt("kw:"+kw, "1")
+			}
+		}
+	}
+	return out
+}
+
+func (c *sortTermClient) Return(e *Engine, st *State, ret *ast.ReturnStmt) {
+	if !e.Reporting() || e.Lit != nil || ret == nil || len(ret.Results) != 2 {
+		return
+	}
+	if !isNilIdent(e.Info, ret.Results[1]) {
+		if !e.IsNil(st, ret.Results[1]) {
+			return // error return
+		}
+	}
+	if s2 := c.Stmt(e, st, nil); s2 != nil {
+		st = s2
+	}
+	has := func(kw string) bool { return st.Ext("kw:"+kw) == "1" }
+	flag := func(name string) (bool, bool) {
+		k := e.CanonSt(st, ret.Results[0])
+		if !k.OK {
+			return false, false
+		}
+		f := st.Get(k.Key + "." + name)
+		if f == nil {
+			return false, true // never assigned: the literal's zero value (checked separately)
+		}
+		if !f.HasEq {
+			return false, false
+		}
+		return f.Eq == "true", true
+	}
+	asc, okA := flag("Asc")
+	nf, okN := flag("NullsFirst")
+	wantAsc := has("asc")
+	wantNF := wantAsc
+	if has("first") {
+		wantNF = true
+	}
+	if has("last") {
+		wantNF = false
+	}
+	var kws []string
+	for _, kw := range []string{"asc", "desc", "first", "last"} {
+		if has(kw) {
+			kws = append(kws, kw)
+			c.seen[kw]++
+		}
+	}
+	why := ""
+	switch {
+	case !okA || !okN:
+		why = "the flags are not determined at the return at " + e.P.Pos(ret.Pos())
+	case asc != wantAsc || nf != wantNF:
+		why = fmt.Sprintf("a term written with %v is returned (at %s) with Asc=%v, NullsFirst=%v; documented Asc=%v, NullsFirst=%v", kws, e.P.Pos(ret.Pos()), asc, nf, wantAsc, wantNF)
+	case has("asc") && has("desc"), has("first") && has("last"):
+		why = fmt.Sprintf("contradictory keywords %v are accepted on one path (return at %s)", kws, e.P.Pos(ret.Pos()))
+	}
+	if why != "" {
+		if len(kws) == 0 {
+			c.bad[""] = why
+		}
+		for _, kw := range kws {
+			c.bad[kw] = why
+		}
+	}
 }
